@@ -22,8 +22,34 @@ def validate_one(args):
     try:
         data = open(path, 'rb').read()
         f = P.ParquetFile(data)
-        res['problems'] = f.validate()
-        if 'structure-only' in open(path[:-8] + '.meta').read():
+        meta_txt = open(path[:-8] + '.meta').read()
+        if 'counts-only' not in meta_txt:
+            res['problems'] = f.validate()
+        if 'counts-only' in meta_txt:
+            # a table too long to decode here (2^31 rows): the counts are added up page header by page header
+            res['counts_only'] = True
+            want = int(re.search(r'rows=(\d+)', meta_txt).group(1))
+            if f.num_rows != want:
+                res['problems'].append('counts: file num_rows %d, %d rows were written' % (f.num_rows, want))
+            tot = 0
+            for gi, rg in enumerate(f.row_groups):
+                tot += rg['num_rows']
+                for ci, col in enumerate(rg['columns']):
+                    try:
+                        pages = f.pages_of(gi, ci)
+                    except P.ParquetError as e:
+                        res['problems'].append('counts: ' + str(e)); continue
+                    res['pages'] += len(pages)
+                    nv = sum(P.fget(p.dph, 1) or 0 for p in pages if p.dph is not None)
+                    if nv != col['num_values']:
+                        res['problems'].append('counts: chunk [%d,%d] pages hold %d values, metadata says %d' % (gi, ci, nv, col['num_values']))
+                    if f.leaves[ci].max_rep == 0 and nv != rg['num_rows']:
+                        res['problems'].append('counts: chunk [%d,%d] pages hold %d rows, row group says %d' % (gi, ci, nv, rg['num_rows']))
+            if tot != f.num_rows:
+                res['problems'].append('counts: row groups hold %d rows, file says %d' % (tot, f.num_rows))
+            res['rows'] = f.num_rows
+            return res
+        if 'structure-only' in meta_txt:
             # a history in which the application ignored a refused call: only the file's own consistency is judged
             res['structure_only'] = True
             for gi, rg in enumerate(f.row_groups):
@@ -130,6 +156,8 @@ def main(c):
                 c.fail_harness('reference reader crashed on %s: %s' % (r['path'], r['harness'])); continue
             data = open(r['path'], 'rb').read()
             c.case(hashlib.sha1(data).hexdigest()[:16], nontrivial=r['rows'] > 0)
+            if r.get('counts_only'):
+                c.count('files_with_2^31_rows_counted_page_by_page')
             if r.get('structure_only'):
                 c.count('files_closed_ok_after_a_refused_batch_validated')
             c.count('files_validated'); c.count('pages_parsed', r['pages']); c.count('chunks_with_2plus_pages', r['chunks_multi_page'])
